@@ -712,7 +712,9 @@ class _Flattener:
         )
 
         # Create new name
-        new_attr_name = self.generate_flattened_name(input_group, attr_name)
+        new_attr_name = self.generate_flattened_name(
+            input_group, attr_name, self._output_ds.ncattrs()
+        )
 
         # Write attribute
         self._output_ds.setncattr(
@@ -747,7 +749,7 @@ class _Flattener:
 
         # Create new name
         new_name = self.generate_flattened_name(
-            self.group(dim), self.name(dim)
+            self.group(dim), self.name(dim), self._output_ds.dimensions
         )
 
         # Write dimension
@@ -790,7 +792,7 @@ class _Flattener:
 
         # Create new name
         new_name = self.generate_flattened_name(
-            self.group(var), self.name(var)
+            self.group(var), self.name(var), self._output_ds.variables
         )
 
         # Replace old by new dimension names
@@ -1591,7 +1593,7 @@ class _Flattener:
             group_separator, flattener_separator
         )
 
-    def generate_flattened_name(self, input_group, orig_name):
+    def generate_flattened_name(self, input_group, orig_name, in_use=()):
         """Convert full path of an element to a valid NetCDF name.
 
         * The name of an element is the concatenation of its
@@ -1614,6 +1616,14 @@ class _Flattener:
             orig_name: `str`
                 The original name of the dimension or variable.
 
+            in_use: container of `str`, optional
+                The names that are already taken in the flattened
+                dataset by elements of the same kind. The
+                concatenated name is not unique when names contain
+                the separator (``/a/b__c`` and ``/a/b/c`` both give
+                ``a__b__c``), so a name that is already in use is
+                replaced by its hashed form.
+
         :Returns:
 
             `str`
@@ -1634,15 +1644,17 @@ class _Flattener:
             )
             new_name = full_name
 
-            # If resulting name is too long, hash group path
-            if len(new_name) >= max_name_len:
+            # If resulting name is too long, or is already taken,
+            # hash group path
+            if len(new_name) >= max_name_len or new_name in in_use:
                 group_hash = hashlib.sha1(
                     self.path(input_group).encode("UTF-8")
                 ).hexdigest()
                 new_name = group_hash + flattener_separator + orig_name
 
-                # If resulting name still too long, hash everything
-                if len(new_name) >= max_name_len:
+                # If resulting name still too long (or taken), hash
+                # everything
+                if len(new_name) >= max_name_len or new_name in in_use:
                     new_name = hashlib.sha1(
                         full_name.encode("UTF-8")
                     ).hexdigest()
